@@ -272,6 +272,43 @@ def _handler(body):
     body.append("/-- the statements of `Handler.stop` inside its lock; `true` = only under `if self._enqueue:` -/")
     body.append("def handlerStopOps : List (Bool × StopOp) := [%s]" % ", ".join(ops))
 
+    # the worker loop of an enqueued handler: which queue items end it, which are written
+    qw = find_func(tree, "_queued_writer", cls="Handler")
+    loop = [st for st in qw.body if isinstance(st, ast.While)]
+    if len(loop) != 1 or _u(loop[0].test) != "True" or loop[0].orelse:
+        raise Unsupported("_queued_writer: expected a single `while True:` loop")
+    for st in qw.body:
+        if st is not loop[0] and not isinstance(st, ast.Assign):
+            raise Unsupported("_queued_writer: unexpected statement outside the loop: " + _u(st).splitlines()[0])
+    wops = []
+    for st in loop[0].body:
+        src = _u(st)
+        if isinstance(st, ast.Try) and len(st.body) == 1 and _u(st.body[0]) == "message = queue.get()" \
+                and len(st.handlers) == 1 and isinstance(st.handlers[0].body[-1], ast.Continue):
+            wops.append(".get")
+        elif src == "message = queue.get()":
+            wops.append(".get")
+        elif isinstance(st, ast.If) and not st.orelse and len(st.body) == 1 and isinstance(st.body[0], ast.Break):
+            t = _u(st.test)
+            if t == "message is None":
+                wops.append(".breakIfNone")
+            elif t in ("not message", "message is None or not message", "not message or message is None"):
+                wops.append(".breakIfFalsy")
+            else:
+                raise Unsupported("_queued_writer: unknown end-of-loop test: " + t)
+        elif isinstance(st, ast.If) and not st.orelse and _u(st.test) == "message is True" \
+                and isinstance(st.body[-1], ast.Continue) and _u(st.body[0]) == "self._confirmation_event.set()":
+            wops.append(".confirmIfTrue")
+        elif isinstance(st, ast.With) and len(st.body) == 1 and isinstance(st.body[0], ast.Try) \
+                and len(st.body[0].body) == 1 and _u(st.body[0].body[0]) == "self._sink.write(message)":
+            wops.append(".write")
+        elif src == "self._sink.write(message)":
+            wops.append(".write")
+        else:
+            raise Unsupported("_queued_writer: unexpected statement in the loop: " + src.splitlines()[0])
+    body.append("/-- the loop body of `Handler._queued_writer` (the worker thread of an enqueued handler) -/")
+    body.append("def workerOps : List WorkerOp := [%s]" % ", ".join(wops))
+
     # the serialized text ends with a newline:  return json.dumps(...) + "\n"
     f = find_func(tree, "_serialize_record", cls="Handler")
     ret = [st for st in f.body if isinstance(st, ast.Return)]
